@@ -8,10 +8,10 @@ import (
 	"io"
 	"net"
 	"net/http"
-	"syscall"
 	"reflect"
 	"strings"
 	"sync"
+	"syscall"
 	"time"
 
 	"nhooyr.io/websocket"
